@@ -448,6 +448,30 @@ def run(rep: Report, ctx: Any) -> str:
                           where(m.functions[fn_name], m.functions[fn_name].node), lhs=verdict[1], rhs=f"returns {next(iter(ref_tags))!r} whenever the key is present")
     rep.floor("reference_discriminators", n_disc, 1)
 
+    # ---- R20.13 ------------------------------------------------------------------------------------------------------------
+    # (statement and value flow: c20_positions.py)  While the document is validated no reference is resolved: code of the document model
+    # that looks inside one member of a position declared ReferenceOr[...] acts on inline members only, so whatever it decides or
+    # changes separates a component written inline from the same component used through `$ref`.
+    from .c20_positions import Positions
+
+    rep.rule("R20.13", "the document model treats a position that may hold a reference as a whole: no code that runs while the document "
+                       "is validated (validators of the document classes, their helpers, functions named in Annotated validators, "
+                       "methods of the document classes - followed through locals, copies, views, loops, comprehensions, lambdas, "
+                       "parameters and results of the functions they are handed to) reads an attribute of, asks for the class of, "
+                       "subscripts or stores into one member of a field whose declared type mentions Reference / ReferenceOr - a "
+                       "reference is not resolved there, so only members written inline would be affected")
+    pos = Positions(ix, ctx.flow[0], doc_model)
+    pos.run()
+    for origin in sorted(pos.read | set(pos.inspections)):
+        sites = sorted(pos.inspections.get(origin, ()))
+        rep.check(not sites, "R20.13", f"{origin}::members-not-inspected",
+                  f"the document model looks inside the members of `{origin}` while the document is validated ({[t for _, t in sites][:3]}): a "
+                  "member that is a reference cannot be looked into there, so what is decided or changed applies only to components written "
+                  "inline - the same component used through `$ref` generates other code than its inline twin",
+                  where=sites[0][0] if sites else "", lhs=[f"{w}: {t}" for w, t in sites[:4]], rhs="members are only looked into after the parser has resolved them")
+    rep.floor("reference_positions_handled_by_the_document_model", len(pos.read | set(pos.inspections)), 2)
+    rep.floor("reference_fields_of_document_classes", sum(len(v) for v in pos.ref_fields.values()), 15)
+
     # ---- R20.11 ------------------------------------------------------------------------------------------------------------
     # "A circular reference ... affects nothing else": the walks over the reference registry and the dependency graph (class lookup
     # through references, propagation of a removal to the dependants) run on graphs the document can make cyclic, so every recursive
